@@ -55,6 +55,40 @@ package sio
 //@   ensures forall k int :: 0 <= k && k < old(len(e.subs)) ==> e.subs[k] == old(e.subs[k])
 //@   ensures e.funcs == old(e.funcs) && e.funcsOnce == old(e.funcsOnce)
 
+// off(h...): exactly the handlers that are not named stay, in their order (every occurrence of a named one goes).
+// hkeep(s, h, j) = how many of the first j elements of s are not in h.
+// hin(x, h): x occurs in h, as a forward scan (hfrom(x, h, m): x occurs at a position >= m)
+//@ define hfrom(x T, h []T, m int) bool = m >= len(h) ? false : ((m >= 0 && h[m] == x) || hfrom(x, h, m + 1))
+//@ define hin(x T, h []T) bool = hfrom(x, h, 0)
+//@ define hkeep(s []T, h []T, j int) int = j <= 0 ? 0 : hkeep(s, h, j - 1) + (hin(s[j-1], h) ? 0 : 1)
+
+//@ func (*handlerStore).off$1
+//@   requires arr(handler) != arr(slice)
+//@   modifies elems(slice)
+//@   ensures arr(result) == arr(slice) && off(result) == off(slice) && cap(result) == cap(slice) [C18.hs.filter.inplace]
+//@   ensures len(result) == old(hkeep(slice, handler, len(slice))) [C18.hs.filter.len]
+//@   ensures forall j int :: 0 <= j && j < len(slice) && !old(hin(slice[j], handler)) ==> result[old(hkeep(slice, handler, j))] == old(slice[j]) [C18.hs.filter.kept]
+//@   ensures unchanged(handler) [C18.hs.filter.args]
+//@   loop 0 invariant arr(kept) == arr(slice) && off(kept) == off(slice) && cap(kept) == cap(slice) && 0 <= len(kept) && len(kept) <= rangeindex + 1 [C18.hs.filter.inv.inplace]
+//@   loop 0 invariant len(kept) == old(hkeep(slice, handler, rangeindex + 1)) [C18.hs.filter.inv.count]
+//@   loop 0 invariant forall k int :: rangeindex + 1 <= k && k < len(slice) ==> slice[k] == old(slice[k]) [C18.hs.filter.inv.tail]
+//@   loop 0 invariant forall j int :: 0 <= j && j <= rangeindex && !old(hin(slice[j], handler)) ==> kept[old(hkeep(slice, handler, j))] == old(slice[j]) [C18.hs.filter.inv.kept]
+//@   loop 0 invariant forall j int :: 0 <= j && j <= rangeindex + 1 ==> 0 <= old(hkeep(slice, handler, j)) && old(hkeep(slice, handler, j)) <= old(hkeep(slice, handler, rangeindex + 1)) && old(hkeep(slice, handler, j)) <= j [C18.hs.filter.inv.mono]
+//@   loop 0 invariant forall j int :: 0 <= j && j <= rangeindex && !old(hin(slice[j], handler)) ==> old(hkeep(slice, handler, j)) < old(hkeep(slice, handler, rangeindex + 1)) [C18.hs.filter.inv.strict]
+//@   loop 0 invariant unchanged(handler) [C18.hs.filter.inv.args]
+//@   loop 1 invariant !remove && rangeindex >= -1 && hin(h, handler) == hfrom(h, handler, rangeindex + 1) [C18.hs.filter.inv.scan]
+
+//@ func (*handlerStore).off
+//@   requires arr(handler) != arr(e.funcs) && arr(handler) != arr(e.funcsOnce)
+//@   requires arr(e.funcs) != arr(e.funcsOnce) || len(e.funcsOnce) == 0
+//@   modifies e.funcs, e.funcsOnce, elems(e.funcs), elems(e.funcsOnce)
+//@   ensures len(handler) == 0 ==> len(e.funcs) == 0 && len(e.funcsOnce) == 0 [C18.hs.off.all]
+//@   ensures len(handler) > 0 ==> len(e.funcsOnce) == old(hkeep(e.funcsOnce, handler, len(e.funcsOnce))) [C18.hs.off.once.len]
+//@   ensures len(handler) > 0 ==> forall j int :: 0 <= j && j < old(len(e.funcsOnce)) && !old(hin(e.funcsOnce[j], handler)) ==> e.funcsOnce[old(hkeep(e.funcsOnce, handler, j))] == old(e.funcsOnce[j]) [C18.hs.off.once.kept]
+//@   ensures len(handler) > 0 ==> len(e.funcs) == old(hkeep(e.funcs, handler, len(e.funcs))) [C18.hs.off.funcs.len]
+//@   ensures len(handler) > 0 ==> forall j int :: 0 <= j && j < old(len(e.funcs)) && !old(hin(e.funcs[j], handler)) ==> e.funcs[old(hkeep(e.funcs, handler, j))] == old(e.funcs[j]) [C18.hs.off.funcs.kept]
+//@   ensures e.subs == old(e.subs) [C18.hs.off.frame]
+
 //@ func (*handlerStore).offAll
 //@   modifies e.funcs, e.funcsOnce
 //@   ensures len(e.funcs) == 0 && len(e.funcsOnce) == 0 [C18.hs.offall]
@@ -344,11 +378,21 @@ package sio
 //@   callsite decode skip   // assumption: decoding the reply's arguments does not touch the socket's ack table
 //@   ensures called <= 1 [C03.srv.onack.once]
 
+//@ define pmatch(it sendBufferItem, id uint64) bool = it.ackID != nil && *it.ackID == id
+//@ define pkeep(s []sendBufferItem, id uint64, j int) int = j <= 0 ? 0 : pkeep(s, id, j - 1) + (pmatch(s[j-1], id) ? 0 : 1)
+
 // The purge run by the timer before the callback: it must not panic (a panic is swallowed by the timer's recover,
 // the callback would never fire and sendBufferMu would stay locked); afterwards no buffered frame waits for that ack.
 //@ func (*clientSocket).registerAckHandler$1
 //@   requires s != nil && s.debug != nil && s.acks != nil
 //@   ensures forall k int :: 0 <= k && k < len(s.sendBuffer) ==> !(s.sendBuffer[k].ackID != nil && *s.sendBuffer[k].ackID == id) [C03.purge.removed]
 //@   ensures len(s.sendBuffer) <= old(len(s.sendBuffer)) [C03.purge.shrinks]
+//@   ensures len(s.sendBuffer) == old(pkeep(s.sendBuffer, id, len(s.sendBuffer))) [C03.purge.exact.len]
+//@   ensures forall j int :: 0 <= j && j < old(len(s.sendBuffer)) && !old(pmatch(s.sendBuffer[j], id)) ==> s.sendBuffer[old(pkeep(s.sendBuffer, id, j))] == old(s.sendBuffer[j]) [C03.purge.exact.kept]
+//@   loop 0 invariant len(kept) == old(pkeep(s.sendBuffer, id, rangeindex + 1)) [C03.purge.inv.count]
+//@   loop 0 invariant forall k int :: rangeindex + 1 <= k && k < old(len(s.sendBuffer)) ==> elemabs(kept, off(kept) + k) == old(s.sendBuffer[k]) [C03.purge.inv.tail]
+//@   loop 0 invariant forall j int :: 0 <= j && j <= rangeindex && !old(pmatch(s.sendBuffer[j], id)) ==> kept[old(pkeep(s.sendBuffer, id, j))] == old(s.sendBuffer[j]) [C03.purge.inv.kept]
+//@   loop 0 invariant forall j int :: 0 <= j && j <= rangeindex + 1 ==> 0 <= old(pkeep(s.sendBuffer, id, j)) && old(pkeep(s.sendBuffer, id, j)) <= old(pkeep(s.sendBuffer, id, rangeindex + 1)) && old(pkeep(s.sendBuffer, id, j)) <= j [C03.purge.inv.mono]
+//@   loop 0 invariant forall j int :: 0 <= j && j <= rangeindex && !old(pmatch(s.sendBuffer[j], id)) ==> old(pkeep(s.sendBuffer, id, j)) < old(pkeep(s.sendBuffer, id, rangeindex + 1)) [C03.purge.inv.strict]
 //@   loop 0 invariant arr(kept) == arr(old(s.sendBuffer)) && off(kept) == off(old(s.sendBuffer)) && cap(kept) == cap(old(s.sendBuffer)) && 0 <= len(kept) && len(kept) <= rangeindex + 1 [C03.purge.inv.inplace]
 //@   loop 0 invariant forall k int :: 0 <= k && k < len(kept) ==> !(kept[k].ackID != nil && *kept[k].ackID == id) [C03.purge.inv.removed]
